@@ -144,6 +144,8 @@ def judge_one(it, eff, structured, fo):
         if not ins:
             return "not-edited"
         return "wrong-style-or-place(%s)" % ins[0]["style"]
+    if want == "kv" and not good[0]["tok"].endswith(b"; " if st.nkv_total == 0 else b", "):
+        return "wrong-separator"
     return None
 
 
